@@ -15,7 +15,8 @@ if [ -d replay ]; then
 fi
 N=${VERIF_JOBS:-8}
 for i in $(seq 0 $((N-1))); do
-  (cd kani && cargo kani -Z stubbing -Z unstable-options --only-codegen --target-dir /verif/work/kt_$i > /verif/work/logs/setup_kt_$i.log 2>&1) &
+  # one small harness is enough to build the dependency crates into this worker's target directory
+  (cd kani && cargo kani -Z stubbing -Z unstable-options --only-codegen --harness directory::verif_init::init_any_partial_directory --exact --target-dir /verif/work/kt_$i > /verif/work/logs/setup_kt_$i.log 2>&1) &
 done
 wait
 echo "setup done"
